@@ -5,7 +5,7 @@
 pub mod node;
 
 use self::node::Node;
-use crate::grammar::{Element, NamedSymbol, Primitive};
+use crate::grammar::{Element, Module, NamedSymbol, Primitive};
 use crate::utils::ptr_util::{OwnedPtr, WeakPtr};
 use std::collections::HashMap;
 
@@ -337,6 +337,24 @@ impl Ast {
 
         // Add the element to this AST.
         self.add_element(element)
+    }
+
+    /// Moves a module into this AST, and returns a [WeakPtr] to it, after adding entries into this AST's
+    /// [lookup table](Ast::lookup_table) for the module, and for the modules that enclose it.
+    ///
+    /// Declaring `module A::B::C` implicitly declares the modules `A` and `A::B` too. Looking up those names has to find
+    /// a module, just like it would if another file had declared them explicitly. Otherwise a reference could silently
+    /// walk past a module that encloses it and bind to something of the same name further out, and whether it did
+    /// would depend on whether any file happens to spell that enclosing module out.
+    pub(crate) fn add_module(&mut self, module: OwnedPtr<Module>) -> WeakPtr<Module> {
+        let index = self.elements.len();
+        let mut enclosing_identifier = module.borrow().nested_module_identifier();
+        while let Some(separator_index) = enclosing_identifier.rfind("::") {
+            enclosing_identifier = &enclosing_identifier[..separator_index];
+            // Never replace an existing entry: either it's a module too, or it's reported as a redefinition.
+            self.lookup_table.entry(enclosing_identifier.to_owned()).or_insert(index);
+        }
+        self.add_named_element(module)
     }
 }
 
